@@ -397,7 +397,8 @@ def handle (s : St) (line : String) : St :=
             | some srcRep =>
               let s := s.spec "C09" "sameEntries" (srcRep.lastE == iE) s!"{kind} from replica {sr}"
               let s := s.spec "C09" "sameHeads" (srcRep.lastH == sortStrs (parseList raw)) s!"{kind} from replica {sr}"
-              if sto && rep.log.sortFn != SortKind.fww && !rep.orderFree && srcRep.log.sortFn == rep.log.sortFn then
+              -- (also under first-write-wins: a rebuilt log lists what its source lists, whatever the ordering)
+              if sto && !rep.orderFree && srcRep.log.sortFn == rep.log.sortFn then
                 s.spec "C09" "sameValues" (srcRep.lastV == iV) s!"{kind} from replica {sr}" else s
           else s
         | none => s
